@@ -72,6 +72,10 @@ def build(M: int, lens: tuple, opening: bool, pickup: int, final: bool, kern_spi
     for m in range(M):
         if m > 0 or opening or pickup:
             txt = ('=%d' % n) if number_bars else '='
+            # blanks bit 16: the second barline line of the score is an invisible barline (=2-); bit 32: every barline line after the
+            # first one is.  An invisible barline is a barline: it opens a measure like any other (it is only not drawn).
+            if (blanks & 16 and n == 2) or (blanks & 32 and n >= 2):
+                txt += '-'
             lines.append(Line('bar', [txt] * ncol, n_bar=n))
             n += 1
         for _ in range(lens[m]):
